@@ -15,7 +15,9 @@ Theorem C08_independent_of_map_iteration_order : forall E A t v v',
 Proof. exact marshal_top_perm_invariant. Qed.
 Print Assumptions C08_independent_of_map_iteration_order.
 
-(* keys_distinct: the *serial* keys of every map are pairwise distinct.  For string-keyed maps that is
+(* keys_distinct: the *serial* keys of every map the run reaches are pairwise distinct — including maps inside
+   the serial form of a transform (kind 9, struct{V interface{}} <-> interface{}: kind9_map_inside_transform;
+   the other modelled transforms accept no value that contains a map).  For string-keyed maps that is
    automatic (Go map keys are distinct); for struct keys through a transform it asks the user's transform
    to be injective — and it is needed: *)
 Theorem C08_non_injective_key_transform_is_order_dependent :
